@@ -26,6 +26,11 @@ inductive NOp where
   | probe (k : SKey) (short : ShortKey) (ok : Bool)
   deriving Repr
 
+/-- a change of the process range (`ClusterRefreshProcessRange`) keeps the invariant as well; it is not an `NOp` only
+because it carries a function (the hash of a service key) -/
+theorem inv_range_change (n : Naming) (r : Nat × Nat) (hashOf : SKey → Nat) (h : Inv n) : Inv (n.refreshRange r hashOf) :=
+  inv_refreshRange n r hashOf h
+
 def step (n : Naming) : NOp → Naming
   | .update k i t fs now h => n.updateInstance k i t fs now h
   | .remove k s c now => (n.removeInstance k s c now).1
